@@ -333,6 +333,7 @@ class Lin:
         elif isinstance(s, ast.Expr):
             self.kind(s.value)
         elif isinstance(s, ast.If):
+            dep = self.value_dependent(s.test)
             e0 = dict(self.env)
             self.block(s.body)
             e1 = self.env
@@ -342,6 +343,12 @@ class Lin:
             for k in set(e1) | set(self.env):
                 a, b = e1.get(k), self.env.get(k)
                 out[k] = a if b is None else (b if a is None else join(a, b))
+            if dep:
+                # the branch is selected by the values / dtype of the operator input: whatever the arms assign is a piecewise
+                # function of the input (e.g. "conjugate the matrix only for complex input" is not C-linear: A(i y) != i A(y) for real y)
+                for n in _assigned(s.body) | _assigned(s.orelse):
+                    out[n] = N
+                    self.notes.append((s, "branch on the input's dtype/values selects the value of `%s`" % n))
             self.env = out
         elif isinstance(s, (ast.For, ast.While)):
             for _ in range(3):
@@ -361,6 +368,49 @@ class Lin:
                 self.block(h.body)
             self.block(s.finalbody)
 
+    def value_dependent(self, test):
+        """does the test read the *values or dtype* of something that depends on the operator input?  (shape, ndim, device, len() and
+        the array module are fixed by the operator's advertised shapes / placement and do not count)"""
+        def walk(e, shielded):
+            if isinstance(e, ast.Attribute):
+                if e.attr in ("shape", "ndim", "size", "device", "xp"):
+                    return False
+                if e.attr == "dtype":
+                    return self.kind(e.value) in (L, A, N)
+                return walk(e.value, shielded)
+            if isinstance(e, ast.Call):
+                f = e.func
+                nm = f.attr if isinstance(f, ast.Attribute) else (f.id if isinstance(f, ast.Name) else "")
+                if nm in ("len", "get_device", "get_array_module", "isinstance", "Device"):
+                    return False
+                return any(walk(a, shielded) for a in e.args) or any(walk(k.value, shielded) for k in e.keywords) or \
+                    (isinstance(f, ast.Attribute) and walk(f.value, shielded))
+            if isinstance(e, ast.Name):
+                return self.env.get(e.id, K) in (L, A, N)
+            return any(walk(c, shielded) for c in ast.iter_child_nodes(e) if isinstance(c, ast.expr))
+        return walk(test, False)
+
     def run(self):
         self.block(self.f.node.body)
         return self.returns
+
+
+def _assigned(stmts):
+    out = set()
+    for s in stmts:
+        for n in ast.walk(s):
+            tg = []
+            if isinstance(n, ast.Assign):
+                tg = n.targets
+            elif isinstance(n, (ast.AugAssign, ast.AnnAssign)):
+                tg = [n.target]
+            for t in tg:
+                base = t
+                while isinstance(base, (ast.Subscript, ast.Attribute)):
+                    base = base.value
+                if isinstance(base, ast.Name):
+                    out.add(base.id)
+                for x in ast.walk(t):
+                    if isinstance(x, ast.Name) and isinstance(x.ctx, ast.Store):
+                        out.add(x.id)
+    return out
